@@ -14,6 +14,7 @@ import Anko.Props.ContFlowTable
 import Anko.Props.Tie.ContFlow
 import Anko.Props.Tie.ProvFlow
 import Anko.Props.Tie.ConvFlow
+import Anko.Props.Tie.Inventory
 
 namespace Anko.C10
 open Anko.Cont
@@ -705,5 +706,14 @@ property is not overlooked. -/
 theorem source_tie_ProvFlow : Gen.ProvFlow.leaves = Tables.provFlow := Tie.provFlow
 /-- the conversion at the Go boundary (vmConvertToX.go) -/
 theorem source_tie_ConvFlow : Gen.ConvFlow.leaves = Tables.convFlow := Tie.convFlow
+
+
+/-! ### Declaration inventory
+
+Nothing was added to the packages this property is anchored in: their top-level declarations (functions, methods, variables, constants, types with
+the fields of struct types), regenerated from /repo on this run, are the audited ones (Props/Tie/Inventory). A helper, a package-level table or a
+file added there - code no flow table can pin - breaks the tie by name and makes this property's check search for a failing input. -/
+/-- vm/ -/
+theorem declarations_of_Vm_are_the_audited_ones : Tie.ofPkg "vm" Gen.Inventory.decls = Tie.ofPkg "vm" Tables.inventory := Tie.inventoryVm
 
 end Anko.C10
